@@ -65,6 +65,7 @@ type GenCfg struct {
 	OldParent    float64   // probability that an other-parent is an old event instead of the latest
 	BigIdx       bool
 	Rounds       bool      // round-based creation: every validator creates one event per round on top of the previous round
+	Stall        int       // after the first round, a minority of the validators gossips alone for this many events (no frame can advance), then everybody returns
 	LagHeavy     bool      // the heaviest validator (first in canonical order) is slow
 	NapProb      float64   // probability (per own event) that a validator falls asleep for a long stretch and later wakes up seeing all heads
 	SiblingForks float64   // share of forks that are siblings of the creator's latest event (same self-parent)
@@ -249,6 +250,20 @@ func Generate(r *rand.Rand, cfg GenCfg, rec *Recorder) *Scenario {
 			}
 			group[v.ID] = r.Intn(2)
 		}
+		asleepUntil := map[idx.ValidatorID]int{}
+		if cfg.Stall > 0 {
+			// put validators to sleep, heaviest first, until the awake ones hold less than a quorum
+			byW := append([]ValW{}, vals...)
+			sort.SliceStable(byW, func(i, j int) bool { return byW[i].W > byW[j].W })
+			awake := total
+			for _, v := range byW {
+				if 3*awake <= 2*total {
+					break
+				}
+				asleepUntil[v.ID] = -cfg.Stall // marker: falls asleep after its first event
+				awake -= int(v.W)
+			}
+		}
 		if cfg.LagHeavy {
 			hv := vals[0]
 			for _, v := range vals {
@@ -261,7 +276,6 @@ func Generate(r *rand.Rand, cfg GenCfg, rec *Recorder) *Scenario {
 		budget := cfg.EpochEvents
 		slowFactor := 3 + r.Intn(4)
 		var roundQ []ValW
-		asleepUntil := map[idx.ValidatorID]int{}
 		justWoke := map[idx.ValidatorID]bool{}
 		prevRound := map[idx.ValidatorID]*Ev{}
 		hard := budget * 4
@@ -301,6 +315,13 @@ func Generate(r *rand.Rand, cfg GenCfg, rec *Recorder) *Scenario {
 					continue
 				}
 				if until, ok := asleepUntil[c.ID]; ok {
+					if until < 0 {
+						if len(own[c.ID]) == 0 {
+							break // first event
+						}
+						asleepUntil[c.ID] = n + (-until)
+						until = asleepUntil[c.ID]
+					}
 					if n < until {
 						awake := 0
 						for _, v := range vals {
